@@ -49,7 +49,8 @@ class EncircledEnergy(SpotDiagram):
 
         data = self._center_spots(deepcopy(self.data))
         geometric_size = self.geometric_spot_radius()
-        axis_lim = np.max(geometric_size)
+        # a field whose rays fail (NaN) must not blank the curves of the others
+        axis_lim = np.nanmax(geometric_size)
         for k, field_data in enumerate(data):
             self._plot_field(ax, field_data, self.fields[k],
                              axis_lim, self.num_points)
